@@ -59,34 +59,7 @@ func helperEdgeMeets(rq edgeReq, cond ssa.Value, pol bool, depth int) bool {
 		if !ok || !isErrorType(v.Type()) {
 			return false
 		}
-		switch y := v.(type) {
-		case *ssa.Call:
-			c = y
-		case *ssa.Extract:
-			c, _ = y.Tuple.(*ssa.Call)
-			resIdx = y.Index
-		case *ssa.UnOp:
-			// named result / local err variable: a load of a local that holds one call's result
-			if al, isAl := y.X.(*ssa.Alloc); isAl && y.Op == token.MUL {
-				var only *ssa.Call
-				n := 0
-				for _, ref := range *al.Referrers() {
-					if st, isSt := ref.(*ssa.Store); isSt && st.Addr == ssa.Value(al) {
-						n++
-						switch z := st.Val.(type) {
-						case *ssa.Call:
-							only = z
-						case *ssa.Extract:
-							only, _ = z.Tuple.(*ssa.Call)
-							resIdx = z.Index
-						}
-					}
-				}
-				if n == 1 {
-					c = only
-				}
-			}
-		}
+		c, resIdx = callOfValue(v)
 		outcome = 3
 		if isNil {
 			outcome = 2
